@@ -70,13 +70,10 @@ class BaseRandomLineAccessFile(collections.abc.Sequence, Generic[C], ABC):
         if self.closed:
             raise RuntimeError("Firstly open the file.")
 
-        if self._dirty:
-            for n in range(len(self)):
-                yield self._get_item(n)
-        else:
-            self._file_seek(0)
-            for n in range(len(self)):
-                yield self._read_next_line()
+        # every line is read through its index entry: a sequential scan from offset 0 would share the file cursor
+        # with random accesses (and other iterations) made in between and would ignore a caller-supplied index
+        for n in range(len(self)):
+            yield self._get_item(n)
 
     @abstractmethod
     def _file_seek(self, offset: int):
